@@ -25,11 +25,31 @@ CLAIMS = {
   note="Error::Recursion is accepted as the documented resource limit for chains that come near 100 nesting units (4 per macro level). An argument the caller cannot resolve is an error where it is demanded and counts as absent where a default exists (the statement leaves this corner open).",
   technique="runtime monitoring: reference expander + interpreter over generated macro sets; crash/hang monitor on cyclic and deep resource graphs",
   ref="DESIGN.md §2 C04"),
+ "C05": dict(
+  text="Held on the executions observed: at generated points of every projection's domain (all aspects, built-in and random ellipsoids) 4th-order finite differences of the forward operator satisfy the Cauchy-Riemann conditions (equal scale in all directions, orthogonal graticule images, positive orientation) to 1e-9 (1e-7 btmerc), laea has areal scale 1 to 5e-8, webmerc equals a*lon, a*asinh(tan(lat)); scale is k_0 on the central meridian / equator / standard parallels / centre, unity at lat_ts, the central-meridian northing is the scaled quadrature arc from lat_0, and the false origin maps from the centre; the library's Jacobian::factors agrees.",
+  note="A conformal map with given boundary values is unique, so no external reference implementation is needed; the stencil steps are chosen so truncation and round-off stay two orders below the tolerances (DESIGN §2 C05). utm/butm on the unit sphere are skipped (500 km false easting leaves no digits).",
+  technique="runtime monitoring: differential invariant monitor (finite-difference conformality / equal-area identities) plus reference values on defining lines",
+  ref="DESIGN.md §2 C05"),
+ "C06": dict(
+  text="Held on the executions observed (table part exhaustive over all 47 entries): every table name instantiates (biaxial and triaxial) with the published a and 1/f, derived parameters meet their definitions, cartesian/geographic invert each other (1 cm) and match the defining formula, h=0 points satisfy the ellipsoid equation, direct and inverse geodesics are consistent, symmetric, reduce to quadrature meridian arcs, equatorial arcs and great circles, all six auxiliary latitudes are odd, increasing, fix 0 and the poles, round-trip to 1e-12 and agree with closed forms/quadrature, meridian distance and latitude are mutual inverses.",
+  note="One open known finding: the rectifying latitude is returned scaled by Qn (pinned by a unit test, see known_findings.json). Geodesic distances are limited to 19000 km (scaled with a) and non-converged results (iteration count 1000) are excluded as documented. Published table transcribed from PROJ's ellps list.",
+  technique="runtime monitoring: independent reference formulas (closed forms, Gauss-Legendre quadrature, published table) as oracles over generated ellipsoids and points; finite table enumerated",
+  ref="DESIGN.md §2 C06"),
  "C07": dict(
   text="Held on the executions observed: f(0) is the translation at the tuple's epoch, the linear part is orthogonal with det +1 in exact mode and equals the EPSG GN7-2 matrix of the declared convention, distances scale by 1+s, PV(r) and CF(-r) agree bit for bit in small-angle mode, scalar and list parameter forms agree bit for bit, the 4th element is untouched, dynamic sets with mixed (and NaN) epochs equal static operators evaluated at each tuple's epoch, t_obs equals giving each tuple that epoch, inverses meet their bounds, and molodensky stays within its bound of the cart|helmert|cart path for pairs of built-in ellipsoids.",
   note="Reference matrices and per-epoch parameters are computed in the harness from the parameter values it generated. Molodensky bound: 5 mm + (D²/a)/cos(lat) (+ 2·D·(e²+|h|/a) abridged).",
   technique="runtime monitoring: independent reference model (EPSG matrices, per-epoch static operators) and invariant monitor over generated parameter sets",
   ref="DESIGN.md §2 C07"),
+ "C13": dict(
+  text="Held on the executions observed: x_0/y_0 are added forward and removed inverse, lon_0 (lonc) in degrees equals shifting the input longitude, k_0 and the semi-major axis scale the unshifted plane linearly (1e-12 relative), utm/butm equal tmerc/btmerc with the UTM constants for all 60 zones and both hemispheres in both directions, merc on a sphere equals webmerc, lat_ts equals its k_0, one-parallel lcc equals two equal parallels, noop aliases leave hostile tuples bit-identical.",
+  note="Pairs of differently parameterised instances inside one build; which projection accepts which parameter is read from the gamut hook.",
+  technique="runtime monitoring: two-route agreement monitor over pairs of parameterisations",
+  ref="DESIGN.md §2 C13"),
+ "C14": dict(
+  text="Held on the executions observed: tmerc vs btmerc within 3 degrees (1 mm, both directions, built-in ellipsoids), cart operator vs Ellipsoid::cartesian (bit) and ::geographic (1 mm), latitude/curvature/gravity/geodesic operators vs the trait methods (bit / 4 ulp), axisswap vs adapt (bit), unitconvert vs adapt (1 ulp), Minimal vs Plain (bit), series latitudes vs closed forms (1e-11 rad) and the series meridian arc vs quadrature (1e-6 m).",
+  note="Two routes inside one build; the quadrature and closed forms are the harness's.",
+  technique="runtime monitoring: two-route agreement monitor",
+  ref="DESIGN.md §2 C14"),
  "C09": dict(
   text="Held on the executions observed: no panic, abort or confirmed hang over grammar-generated and byte-mutated definitions (every operator name and gamut key from the hook), macros, PROJ text, hostile coordinates in both directions and direct calls of the ellipsoid/angular/tokenizer APIs, in debug-semantics and release-semantics builds.",
   note="'Never hangs' is restated as bounded progress: a case that burns 10 CPU-seconds is re-run alone for 20 more before it is called a hang. Trusts catch_unwind + the write-ahead log to attribute crashes.",
